@@ -260,6 +260,12 @@ class Interp:
         def f(p):
             if y < 0 and not p.is_const():
                 self.nonzero.append(p)
+            if y % 2 == 0 and len(p.terms) == 1:
+                (m, cf), = p.terms.items()          # |q|^(2k) == q^(2k)
+                if len(m) == 1 and m[0][1] == 1:
+                    k = P.atom_by_id(m[0][0]).key
+                    if k[0] == "fn" and k[1] == "abs":
+                        return (P.Poly.const(cf) * P.poly_from_key(k[2][0])) ** y
             return p ** y
         return _ew1(f, v[0])
 
